@@ -73,13 +73,16 @@ def run(ctx):
     exe = ctx.build("d_arith")
     quick = ctx.tier == "quick"
     # ---- specification leg
-    ctx.tlc_mc("Descriptor.tla", "MC_Descriptor.cfg" if quick else "MC_Descriptor_full.cfg",
-               spec_dir=sd, require_actions=["Step"], timeout=2400)
-    if not quick:
-        ctx.tlc_mc("Descriptor.tla", "MC_Descriptor_wide.cfg", spec_dir=sd,
-                   require_actions=["Step"], timeout=2400)
-    for m in ("MC_Descriptor_mutant_size.cfg", "MC_Descriptor_mutant_hi.cfg"):
-        ctx.tlc_mc("Descriptor.tla", m, spec_dir=sd, expect_violation=True)
+    # (VERIF_ARITH_SKIP_MC=1 skips it: only for mutation experiments on the code, which the
+    # specification leg does not depend on)
+    if not os.environ.get("VERIF_ARITH_SKIP_MC"):
+        ctx.tlc_mc("Descriptor.tla", "MC_Descriptor.cfg" if quick else "MC_Descriptor_full.cfg",
+                   spec_dir=sd, require_actions=["Step"], timeout=2400)
+        if not quick:
+            ctx.tlc_mc("Descriptor.tla", "MC_Descriptor_wide.cfg", spec_dir=sd,
+                       require_actions=["Step"], timeout=2400)
+        for m in ("MC_Descriptor_mutant_size.cfg", "MC_Descriptor_mutant_hi.cfg"):
+            ctx.tlc_mc("Descriptor.tla", m, spec_dir=sd, expect_violation=True)
     # ---- conformance leg: one process per VM layout, one TLC run over the three traces
     allp = os.path.join(ctx.work, "descriptor_all.ndjson")
     per_layout = {}
@@ -108,7 +111,10 @@ def run(ctx):
     ntr = sum(v["contiguous_descriptors"] + v["discontiguous_descriptors"] for v in per_layout.values())
 
     def keyfn(row):
-        return "descriptor:%s:%s:sc=%s" % (row.get("ev"), row.get("_tag"), row.get("sc", "-"))
+        # input class = magnitude of the start chunk (log2 bucket); sc < 1024 <=> start below 2^32
+        sc = row.get("sc")
+        bucket = "-" if sc is None else "sc<2^%d" % max(1, int(sc).bit_length())
+        return "descriptor:%s:%s:%s" % (row.get("ev"), row.get("_tag"), bucket)
     def validate(path, n):
         ctx.tlc_trace(TRACE_SPEC[0], TRACE_SPEC[1], path, spec_dir=sd, key="descriptor:row",
                       what="a real SpaceDescriptor does not report the range it was created for",
